@@ -55,11 +55,14 @@ PROPS = {
     ),
     'C06': dict(
         level='other',
-        explain='Bounded only. The property is about Arc::strong_count reaching 1 (live clones across the heap): Verus treats Arc<T> as T, Kani contracts cannot quantify over the heap. '
-                'Checked: Kani K-handles (fixed 3-append / 2-file shape, symbolic truncate position): a file handle can_be_deleted() iff no retained record was appended with it.',
+        explain='Bounded only for the end-to-end statement. The property is about Arc::strong_count reaching 1 (live clones across the heap): Verus treats Arc<T> as T, Kani contracts cannot quantify over the heap. '
+                'Checked: (1) Verus, handle PLACEMENT for all inputs: append_record stores a handle in the new last record, clears the previous last record\'s handle iff it names the same file, leaves all others alone (O-C06-place-append); '
+                'truncate_head keeps exactly the handles of the retained records (O-C06-place-trunc); the clone of the current file is held across the GC pass (O-C01-gc-pin, syntactic ownership check). '
+                '(2) Kani K-handles, BOUNDED (fixed 3-append / 2-file shape, symbolic truncate position): a file handle can_be_deleted() iff no retained record was appended with it.',
         kani_quick=['K-handles'], kani_thorough=[],
         trusted=['everything outside the harness'],
-        not_decided=['that the GC pass is invoked at the end of truncate/delete/open', 'FileTracker (BTreeSet: CBMC does not finish)', 'the directory listing itself', 'disk_used_bytes'],
+        not_decided=['that the GC pass is invoked at the end of truncate/delete/open', 'FileTracker (BTreeSet: CBMC does not finish)', 'the directory listing itself', 'disk_used_bytes',
+                     'identity of the stored handle with the file being written (derived Clone has no Verus spec)'],
     ),
     'C07': dict(
         level='proof',
